@@ -130,6 +130,29 @@ def run(ctx):
                     rec["failures"] = fails[:8]
                 recs.append(rec)
                 meta.append({"platform": plat, "cfg": c, "log": l})
+                if f is not None and (bname in ("zeros", "snapshot0") or not ctx.quick):
+                    # the block of a LIVE facade changes (a refresh or a partial update arrives): the owner switches the
+                    # display unit, and - from the all-zero block - every byte changes at once
+                    rec2 = {"kind": "facade", "combo": rec["combo"], "block": bname + "+update", "built": True,
+                            "error": "", "evaluated": 0, "failures": []}
+                    try:
+                        if bname == "zeros":
+                            st.replace_status_block_segment(0, b"\xff" * 1024)
+                        else:
+                            tu = st.accessors.get("TempUnits")
+                            if tu is not None and tu.pos < 1024:
+                                cur = st.status_block[tu.pos + tu.length - 1]
+                                st.replace_status_block_segment(tu.pos + tu.length - 1, bytes([cur ^ (1 << (tu.bitpos or 0))]))
+                            k_ = rng.randrange(1000)
+                            st.replace_status_block_segment(k_, bytes(rng.randrange(256) for _ in range(20)))
+                    except Exception as e:  # noqa
+                        rec2["failures"] = [{"member": "status block update of a live facade", "exc": type(e).__name__}]
+                    cnt, fails = evaluate(f)
+                    n_eval += cnt
+                    rec2["evaluated"] = cnt
+                    rec2["failures"] = (rec2["failures"] + fails)[:8]
+                    recs.append(rec2)
+                    meta.append({"platform": plat, "cfg": c, "log": l})
         # value semantics on one facade per platform
         done_plat = set()
         for (plat, c, l) in combos:
@@ -184,6 +207,7 @@ def run(ctx):
                     if raw > cap:
                         continue
                     w_ = raw if a.bitpos is None else ((raw & a.bitmask) << a.bitpos)
+                    w_ &= (1 << (8 * a.length)) - 1        # (a mask the library derived too wide must not break the harness)
                     _set_field(st, a, w_)
                     try:
                         v = a.value
